@@ -472,6 +472,14 @@ C07PairClauses ==
        ClauseAt("TwoFormsAgree", \A x \in XS : \A y \in YS : (IsGuard(y) \/ XRow(y) \/ x = 0 \/ x = NX - 1) \/
           Near(Obs.curl[c].A[x + 1][y + 1], Obs.curl[c].B[x + 1][y + 1], Obs.tolpm), c)
 
+\* the y component is smooth enough for a much sharper, row-relative statement: within 5 % of the largest |A| of the same row of cells
+\* (measured on the unchanged tree: at most 2.4 %); it is what exposes a term dropped from the x-y form where the component is small
+\* (the core), which the grid-wide bound above cannot see
+RowMaxAbs(M, y) == LET S == {Abs(M[x + 1][y + 1]) : x \in XS} IN CHOOSE m \in S : \A v \in S : v <= m
+C07PairRowClauses ==
+  ClauseAt("TwoFormsAgreeRowwise", \A y \in YS : IsGuard(y) \/ \A x \in XS : (x = 0 \/ x = NX - 1) \/
+      20 * Abs(Obs.curl["y"].A[x + 1][y + 1] - Obs.curl["y"].B[x + 1][y + 1]) <= RowMaxAbs(Obs.curl["y"].A, y) + 40, "y")
+
 --------------------------------------------------------------------------
 Observe ==
   /\ stage = "file"
@@ -486,7 +494,7 @@ Observe ==
        [] Obs.prop = "C10" -> C10Clauses
        [] Obs.prop = "C11" -> C11Clauses
        [] Obs.prop = "C04" -> C04Clauses
-       [] Obs.prop = "C07" -> IF Obs.kind = "twoforms" THEN C07PairClauses ELSE PairClauses
+       [] Obs.prop = "C07" -> IF Obs.kind = "twoforms" THEN C07PairClauses /\ C07PairRowClauses ELSE PairClauses
        [] Obs.prop = "C06" -> C06Clauses
        [] OTHER -> TRUE
   /\ stage' = "observed"
